@@ -79,6 +79,25 @@ Theorem C09_headers_npt_time_partial : forall d neg m e,
 Proof. exact npt_time_partial. Qed.
 Print Assumptions C09_headers_npt_time_partial.
 
+(* NPT ranges, repaired code: every non-negative multiple of 1 ms below 2^50 ns (about 13 days) round-trips, in every
+   iteration order.  [float_contract d] is the one fact about strconv that is not proved but assumed (Go documents
+   it; the harness checks it on every value): ParseFloat (FormatFloat (d.Seconds(), 'f', -1, 64)) = d.Seconds().
+   The three float64 roundings (nsec/1e9, the sum, the product by 1e9) followed by math.Round are proved exact:
+   C09_headers_npt_ms_exact.  From 2^51 ns on this is false (known finding npt-float-precision). *)
+Theorem C09_headers_npt_ms_exact : forall d,
+  d mod 1000000 = 0 -> d < 2 ^ 50 ->
+  to_int64_round (dmul_int (seconds_of d) E9) = Z.of_N d.
+Proof. exact npt_ms_exact. Qed.
+Print Assumptions C09_headers_npt_ms_exact.
+
+Theorem C09_headers_range_roundtrip_npt : forall st en tm o,
+  is_perm o -> wf_npt st = true -> float_contract st ->
+  match en with Some e => wf_npt e = true /\ float_contract e | None => True end ->
+  opt_all wf_utc tm = true ->
+  range_unmarshal_with o (range_marshal (mkRange (RNpt st en) tm)) = Ok (mkRange (RNpt st en) tm).
+Proof. exact range_roundtrip_npt. Qed.
+Print Assumptions C09_headers_range_roundtrip_npt.
+
 (* ================= determinism: the result (value or failure) does not depend on the map iteration order ======= *)
 Theorem C09_headers_session_deterministic : forall s o1 o2,
   is_perm o1 -> is_perm o2 -> session_unmarshal_with o1 s = session_unmarshal_with o2 s.
@@ -150,7 +169,7 @@ Example C09_ex_regressions :
 Proof. repeat split; vm_compute; reflexivity. Qed.
 (* 1.5 s and 2020-02-29T23:59:59Z survive their codecs (so the hypotheses of the partial Range theorem are satisfiable) *)
 Example C09_ex_range_codecs :
-  npt_unmarshal (npt_marshal 1500000000%Z) = Some 1500000000%Z /\
+  npt_unmarshal (npt_marshal 1500000000%Z) = Some 1500000000%Z /\ wf_npt 1001000000%Z = true /\ float_contract 1001000000%Z /\
   wf_utc (mkUtc 2020 2 29 23 59 59 0) = true /\ wf_utc (mkUtc 2021 2 29 0 0 0 0) = false /\
   wf_smpte (mkSmpte 36420000000000%Z 5 1) = true /\
   to_int64 (seconds_of (Z.to_N 36420000000000%Z)) = (36420000000000 / 1000000000)%Z /\
